@@ -21,7 +21,12 @@ CFG = dict(
     rule="real controllers (n=4,7) brought to a random point of honest or forged-Byzantine traffic, then a stream of forged certificates: every single-field "
          "mutation of real aggregated commits (signer list edits: drop/duplicate/swap/foreign/zero/reorder/all; re-aggregation with a wrong or foreign key; "
          "full data / root / round / height / identifier / type / data round / justifications, re-signed or not; signature flips), then the rest of the traffic "
-         "with more forgeries interleaved; with and without the runner's compaction; each op on real code and on the Lean model",
-    trusted_base=["harness abstraction (sigOk computed by the real VerifyByOperators; roots/values interned)", "BLS / SHA-256 abstracted"],
+         "with more forgeries interleaved; a quarter of the forgeries RE-USE signature and signer list of a genuine certificate that was delivered (and verified by the node) "
+         "just before, on another height / round / value / root / full data / type; 8 % of the cases (and 6 directed ones) are histories towards a LOCAL decision: a fully justified "
+         "future-round proposal signed by the leader of the operator's CURRENT round (or another non-leader) followed by prepare and commit quorums, and a value this operator's "
+         "value check rejects re-proposed with a valid prepared justification of the other operators, followed by prepare and commit quorums (real RoundRobinProposer); "
+         "with and without the runner's compaction; each op on real code and on the Lean model. The oracle (and `sig` on the op lines) uses the cache-free reference verifier of "
+         "ssv-spec, NOT the node's VerifyByOperators, which is code under test",
+    trusted_base=["harness abstraction (sigOk computed by ssv-spec types.Signature.VerifyByOperators — the reference verifier, independent of the node's copy; roots/values interned)", "BLS / SHA-256 abstracted"],
     assumptions=["light node (fullNode=false): instances are not reloaded from storage", "the configured value check rejects the empty value"],
 )
